@@ -176,14 +176,25 @@ fn cast_ray(bv: &SimdAabb, ray: &SimdRay) -> (SimdBool, SimdReal) {
 
     // TODO: could this be optimized more considering we really just need a boolean answer?
     for i in 0usize..DIM {
+        // This test only prunes candidates for the exact per-edge test which follows, so the box
+        // is padded by a few ulps of the magnitudes involved. A line passing through a vertex
+        // touches the boxes of the adjacent edges only at a corner, and without the padding it is
+        // rounding that decides whether the crossing is found.
+        let magnitude = bv.mins[i].simd_max(-bv.mins[i])
+            + bv.maxs[i].simd_max(-bv.maxs[i])
+            + ray.origin[i].simd_max(-ray.origin[i]);
+        let pad = magnitude * SimdReal::splat(1.0e-12);
+        let mins = bv.mins[i] - pad;
+        let maxs = bv.maxs[i] + pad;
+
         let is_not_zero = ray.dir[i].simd_ne(zero);
-        let is_zero_test = ray.origin[i].simd_ge(bv.mins[i]) & ray.origin[i].simd_le(bv.maxs[i]);
+        let is_zero_test = ray.origin[i].simd_ge(mins) & ray.origin[i].simd_le(maxs);
         let is_not_zero_test = {
             let denom = one / ray.dir[i];
             let mut inter_with_near_plane =
-                ((bv.mins[i] - ray.origin[i]) * denom).select(is_not_zero, -infinity);
+                ((mins - ray.origin[i]) * denom).select(is_not_zero, -infinity);
             let mut inter_with_far_plane =
-                ((bv.maxs[i] - ray.origin[i]) * denom).select(is_not_zero, infinity);
+                ((maxs - ray.origin[i]) * denom).select(is_not_zero, infinity);
 
             let gt = inter_with_near_plane.simd_gt(inter_with_far_plane);
             simd_swap(gt, &mut inter_with_near_plane, &mut inter_with_far_plane);
